@@ -94,8 +94,10 @@ TraceNext ==
     /\ out' = Rec[l].op
     /\ LET b == Bad(Rec[l].op, Rec[l].obs, S')
            isInit == Rec[l].op.a = "init" IN
-       \* once the run has drifted only the tag that rests on the logged operations alone is still judged
-       /\ bad' = IF isInit THEN {} ELSE IF dead THEN {x \in b : x[2] \in {"insert_overwritten_by_late_fetch", "foreign_value"}} ELSE b
+       \* once the run has drifted only the tags that rest on the logged operations alone are still judged (a
+       \* caller still pending after the final drain - every slot resolved, every task run - hangs whatever
+       \* happened before)
+       /\ bad' = IF isInit THEN {} ELSE IF dead THEN {x \in b : x[2] \in {"insert_overwritten_by_late_fetch", "foreign_value", "caller_never_answered"}} ELSE b
        /\ dead' = IF isInit THEN FALSE ELSE (dead \/ b # {})
     /\ l' = l + 1
 
